@@ -169,4 +169,19 @@ def jsonBody (variant : Nat) (extra : Option Bytes) (enc : Bytes) : Bytes :=
 def jsonCType (variant : Nat) : Bytes :=
   if variant == 5 then "application/javascript; charset=utf-8".toList else "application/json; charset=utf-8".toList
 
+/-! ### Format -/
+
+/-- `Format(code, data)` once `c.Accepts("json", "html", "xml", "txt")` answered `ans`: status, content type,
+    body; `none` = the JSON encoder refused the value (error returned, nothing written). `vtext` is
+    `fmt.Sprintf("%v", data)`, `enc` what `json.Encoder.Encode(data)` returned (parameters). -/
+def formatResponse (ans : Bytes) (code : Nat) (vtext : Bytes) (encOK : Bool) (enc : Bytes) : Option (Nat × Bytes × Bytes) :=
+  if ans == "html".toList then some (code, "text/html".toList, "<p>".toList ++ vtext ++ "</p>".toList)
+  else if ans == "xml".toList then
+    some (code, "application/xml".toList, "<?xml version=\"1.0\"?>\n<response>".toList ++ vtext ++ "</response>".toList)
+  else if ans == "txt".toList || ans.isEmpty then some (code, "text/plain".toList, vtext)   -- Stringf(code, "%v", data)
+  else if encOK then some (code, jsonCType 0, enc) else none                                  -- "json" and the default
+
+/-- the offers `Format` negotiates over -/
+def formatOffers : List Bytes := ["json".toList, "html".toList, "xml".toList, "txt".toList]
+
 end Rivaas.Render
